@@ -9,7 +9,7 @@ SIM_NOTE = ("Trusted base: the harness (scripted actor, client interpreter, trac
 CHECKS = {
  "C01": ("generated concurrent scenarios in a deterministic virtual-time simulation of the real rsactor code; history invariant over uniquely tagged messages (handled <=1; rejected never; accepted-before-stop/drop exactly once before on_stop; nothing pending on a live idle actor at quiescence)", "5/C01"),
  "C02": ("generated multi-sender scenarios on capacity 1-3 mailboxes; oracle: no inversion between real-time order of completed sends and handler-entry order; stop() position in the same order", "5/C02"),
- "C03": ("generated concurrent askers against actors ending by every cause; oracle: reply value carries request id + per-handler nonce that must match the trace; ask_join vs scripted job outcome; no operation pending on an ended actor at quiescence; later sends fail at once", "5/C03"),
+ "C03": ("generated concurrent askers against actors ending by every cause; oracle: reply value carries request id + per-handler nonce that must match the trace; ask_join vs scripted job outcome; no operation pending on an ended actor at quiescence; later sends fail at once; plus a generated real-thread experiment (asks issued at the moment the actor ends by panic / stop / kill / last drop must all return)", "5/C03"),
  "C04": ("generated termination causes x hook outcomes x phases; oracle: per-actor regular language over hook events, on_stop exactly-once rules, killed flag iff a kill signal could have been consumed", "5/C04"),
  "C05": ("same generator as C04; oracle: expected ActorResult recomputed from the hook trace alone (phase, killed, error tag, presence and state of the instance, panic payload) + accessor laws on every real result", "5/C05"),
  "C06": ("generated kill() instants with 0-64 queued messages in every actor phase; oracle: kill never fails/blocks, <=1 handler entry after kill returned, on_stop(killed=true) with no idle gap, result killed=true, queued asks fail", "5/C06"),
